@@ -79,7 +79,12 @@ func VerifH_C05_path() {
 	po := verifPathOps[verifChoose("op", len(verifPathOps))]
 	n := po.counts[verifChoose("count", len(po.counts))]
 	for i := 0; i < n; i++ {
-		p.num("a", fixed)
+		if po.op == t2flex1 {
+			// flex1 derives a delta from the sum of five operands: keep that sum inside the coordinate range
+			p.small("a", -6000, 6000)
+		} else {
+			p.num("a", fixed)
+		}
 	}
 	p.op(po.op)
 	p.op(t2endchar)
